@@ -40,8 +40,13 @@ World ==
                             Define("helper", Thunk(<<Quote(MkSym("user-helper"))>>)),
                             \* the library redefines a name it imported and exports ITS definition
                             Define("peek", Thunk(<<Quote(MkSym("user-peek"))>>))>>,
-                 exports |-> << <<"use-counter", "use-counter">>, <<"peek", "u-peek">> >>])
-LibNames == {"counter", "user"}
+                 \* next! is re-exported: an imported binding handed on under another name is still the one instance's procedure
+                 exports |-> << <<"use-counter", "use-counter">>, <<"peek", "u-peek">>, <<"next!", "u-next!">> >>])
+  \* a third level: (top) imports (user) only; its procedure reaches the counter through two library boundaries
+  @@ ("top" :> [imports |-> <<"user">>,
+                body |-> <<Define("top-use", Thunk(<<Call("use-counter", <<>>)>>))>>,
+                exports |-> << <<"top-use", "top-use">> >>])
+LibNames == {"counter", "user", "top"}
 
 RECURSIVE RunSteps(_, _)
 RunSteps(s, fuel) == IF s.status = "done" \/ fuel = 0 THEN s ELSE RunSteps(Step(s), fuel - 1)
@@ -80,11 +85,11 @@ ImportDecl(st, names, pfx) ==
 
 \* ---- programs: one import declaration, then operations
 ImportChoices == { <<<<"counter">>, <<"">>>>, <<<<"user">>, <<"">>>>, <<<<"counter", "user">>, <<"", "">>>>, <<<<"user", "counter">>, <<"", "">>>>,
-                   <<<<"counter", "counter">>, <<"", "c:">>>> }
+                   <<<<"counter", "counter">>, <<"", "c:">>>>, <<<<"top", "counter">>, <<"", "">>>>, <<<<"counter", "user", "top">>, <<"", "", "">>>> }
 Ops == {Call("next!", <<>>), Call("use-counter", <<>>), Call("peek", <<>>), Call("show", <<>>), Call("leak", <<>>), Call("c:next!", <<>>),
         Define("helper", Thunk(<<Quote(MkSym("importer-helper"))>>)), Call("helper", <<>>),
         Define("next!", Thunk(<<Quote(MkSym("fake"))>>)), Define("importer-var", Num(5)),
-        Call("bump", <<>>), Var("n"), Call("renamed-bump", <<>>), Var("a-val"), Var("b-val"), Call("get-ab", <<>>), Var("start"), Call("u-peek", <<>>)}
+        Call("bump", <<>>), Var("n"), Call("renamed-bump", <<>>), Var("a-val"), Var("b-val"), Call("get-ab", <<>>), Var("start"), Call("u-peek", <<>>), Call("u-next!", <<>>), Call("top-use", <<>>)}
 
 VARIABLES imp, st, hist
 vars == <<imp, st, hist>>
@@ -112,11 +117,11 @@ LibraryFramesAreRoots == \A n \in DOMAIN st.insts : st.m.frames[st.insts[n]].par
 \* the state kept inside (counter) is what all importers see: peek equals the number of next!/use-counter/c:next!/renamed-bump calls
 CounterCalls == Len(SelectSeq(hist, LAMBDA h : h.r.k = "value" /\ h.form.t = "app" /\ h.form.f.t = "var"
                                                  /\ h.form.f.x \in {"next!", "use-counter", "c:next!", "renamed-bump"} /\ h.r.v.t = "int"))
-Bumps == {Call(x, <<>>) : x \in {"next!", "use-counter", "c:next!", "renamed-bump"}}      \* (when they still denote the library's procedures)
+Bumps == {Call(x, <<>>) : x \in {"next!", "use-counter", "c:next!", "renamed-bump", "u-next!", "top-use"}}      \* (when they still denote the library's procedures)
 Peeks == {Call("peek", <<>>), Call("bump", <<>>)}       \* (the importer's bump is the library's peek)
 SharedState == \A i \in DOMAIN hist :
    (hist[i].form \in Peeks /\ hist[i].r.k = "value") =>
       hist[i].r.v = MkInt(Len(SelectSeq(SubSeq(hist, 1, i), LAMBDA h : h.r.k = "value" /\ h.r.v.t = "int" /\ h.form \in Bumps)))
 Emit == Len(hist) = MaxOps => PrintT(<<"VEC", ToJson([imports |-> imp[1], prefixes |-> imp[2], hist |-> hist,
-                                                          world |-> [n \in {"counter", "user"} |-> [name |-> n, imports |-> World[n].imports, body |-> World[n].body, exports |-> World[n].exports]]])>>)
+                                                          world |-> [n \in LibNames |-> [name |-> n, imports |-> World[n].imports, body |-> World[n].body, exports |-> World[n].exports]]])>>)
 =============================================================================
